@@ -722,6 +722,28 @@ def rule_k13(repo):
     return res
 
 
+def rule_k14(repo):
+    """beta_conv and forall_elim are as sound as subst_bound / incr_boundvars: the binder counting of C03.I7."""
+    from .c03 import rule_i7
+    r = rule_i7(repo)
+    res = RuleResult('C01.K14', 'the substitution engine behind beta_conv / forall_elim counts binders correctly', floor=4)
+    for i in r.instances:
+        if 'subst_bound' in i.key or 'incr_boundvars' in i.key or 'is_open' in i.key or 'abstract_over' in i.key:
+            res.add(i.key, i.ok, i.detail, i.loc)
+    return res
+
+
+def rule_k15(repo):
+    """A derivation is sound only if what a step cites was derived before it: the scoping predicate and the
+    identifier-equals-position discipline of the checker (C02.P10, C02.P11) are part of the kernel's argument."""
+    from .c02 import rule_p10, rule_p11
+    res = RuleResult('C01.K15', 'a step can only cite lines that were checked before it: scoping predicate and position discipline', floor=3)
+    for r in (rule_p10(repo), rule_p11(repo)):
+        for i in r.instances:
+            res.add(i.key, i.ok, i.detail, i.loc)
+    return res
+
+
 def rules(repo):
     return [rule_k1(repo), rule_k2(repo), rule_k3(repo), rule_k4(repo), rule_k5(repo), rule_k6(repo),
-            rule_k8(repo), rule_k9(repo), rule_k10(repo), rule_k11(repo), rule_k12(repo), rule_k13(repo)]
+            rule_k8(repo), rule_k9(repo), rule_k10(repo), rule_k11(repo), rule_k12(repo), rule_k13(repo), rule_k14(repo), rule_k15(repo)]
